@@ -19,13 +19,13 @@
 (*    exact reachability semantics (Behaves) it is checked against.        *)
 (* MCIterProto.tla model-checks all of it for small variants.              *)
 EXTENDS Naturals, Sequences, FiniteSets
+LOCAL INSTANCE SequencesExt   \* FoldLeft (evaluated iteratively by TLC)
 
 Some == "some"
 Err  == "err"
 None == "none"
 Results == {Some, Err, None}
 
-Max(a, b) == IF a >= b THEN a ELSE b
 Monus(a, b) == IF a >= b THEN a - b ELSE 0
 
 -----------------------------------------------------------------------------
@@ -171,10 +171,8 @@ RunStep(fused, s, res, c) ==
           ELSE IF c <= s.f + s.v THEN Live(s.v - Monus(c, s.f), Monus(s.f, c)) ELSE Reject)
     ELSE Reject
 
-RECURSIVE Fold(_, _, _)
 Fold(fused, s, runs) ==
-    IF runs = <<>> THEN s
-    ELSE Fold(fused, RunStep(fused, s, Head(runs)[1], Head(runs)[2]), Tail(runs))
+    FoldLeft(LAMBDA acc, run : RunStep(fused, acc, run[1], run[2]), s, runs)
 
 HasNone(runs) == \E i \in DOMAIN runs : runs[i][1] = None /\ runs[i][2] > 0
 
